@@ -382,6 +382,17 @@ def c02(run):
     # the function text -> tree itself, on every short token sequence (accepted: the tree; rejected: that it is rejected)
     small_scope(run, lambda r: 'err' if r.startswith('err') else rock.erase_positions(r), 'spelling -> tree')
     layout_scope(run, lambda r: 'err' if r.startswith('err') else rock.erase_positions(r), 'block layout -> tree')
+    # the same programs saved with CR LF line ends (a carriage return is a blank to the lexer, and text to a poetic string),
+    # with CR alone in place of some blanks, and with a final line that has no line end
+    crlf = []
+    for prog, t, exp in cases[:run.n(600, 20000)]:
+        crlf.append(t.replace('\n', '\r\n'))
+        crlf.append(t.replace(' ', '\r', 3))
+        crlf.append(t.rstrip('\n'))
+    run.tie(['parse ' + hx(t) for t in crlf], proj=lambda r: 'err' if r.startswith('err') else rock.erase_positions(r), functional=True,
+            desc=lambda i: {'text': crlf[i][:2000], 'section': 'CR LF / CR / no final line end'})
+    for t in crlf:
+        run.case(('crlf', t), True, kind='line-ends')
     # one construct repeated N times (N = powers of two +-1, 1000), words and names of every byte length: the tree
     sc = [t for _, _, t in texts.scale_programs(run.tier == 'quick')]
     sc += ['put ' + t + ' into ' + t + '\nsay ' + t + '\n' for t in texts.sized_tokens(run.tier == 'quick')[::7]]
